@@ -1002,6 +1002,11 @@ def _never_none_elt(comp) -> bool:
     e = comp.elt
     if isinstance(e, (ast.Tuple, ast.List, ast.Dict, ast.Set, ast.JoinedStr)):
         return True
+    if isinstance(e, ast.Call) and isinstance(e.func, (ast.Name, ast.Attribute)):
+        # a class called by its (capitalised) name constructs an instance
+        nm = (e.func.id if isinstance(e.func, ast.Name) else e.func.attr).lstrip("_")
+        if nm[:1].isupper() and not nm.isupper():
+            return True
     if isinstance(e, ast.Constant):
         return e.value is not None
     if isinstance(e, ast.Name):
@@ -1737,7 +1742,7 @@ class Canon:
 
         def prep(body):
             body = lower_matches(body, self._match_args(module, fn))
-            return lift_walrus(lift_ifexp(body))
+            return norm.first_match_to_next(lift_walrus(lift_ifexp(body)))
 
         local_types = self._local_types(real_body(fn), module, cls, fn)
 
@@ -1943,6 +1948,7 @@ class Canon:
         b = lower_matches(b, self._match_args(module, fn))
         b = lift_ifexp(b)
         b = lift_walrus(b)
+        b = norm.first_match_to_next(b)
         look = self._lookup(module, cls, fn, set(inline), set(keep), accessors, supers)
         from .genloop import inline_generator_loops, inline_guard_helpers
         b = inline_generator_loops(b, look)       # loops over unknown generator helpers: the helper's loop with the body at its yield
